@@ -43,10 +43,10 @@ def Ctx.optId (c : Ctx) : Option Nat → String
   | some k => c.idOf k
   | none => "-"
 
-/-- Cursor state `<id> <depth> <descendant index> <field id>` relative to a cursor rooted at `r`. -/
+/-- Cursor state `<id> <kind> <depth> <descendant index> <field id>` relative to a cursor rooted at `r`. -/
 def Ctx.state (c : Ctx) (r k : Nat) : String :=
   let f := if k == r then 0 else c.ft.fieldOf k
-  s!"{c.idOf k} {(c.ft.node k).depth - (c.ft.node r).depth} {k - r} {f}"
+  s!"{c.idOf k} {c.lang.publicSymbol (c.ft.node k).info.sym} {(c.ft.node k).depth - (c.ft.node r).depth} {k - r} {f}"
 
 def Ctx.fieldNameHex (c : Ctx) (k : Nat) : String :=
   let f := c.ft.fieldOf k
@@ -69,6 +69,9 @@ def mkCtx (lang : Lang) (root : Tree) (rootId : Nat) : Ctx :=
       m := m.insert (ft[k]'h.2.1).info.id k
     return m
   { lang := lang, ft := ft, vt := vt, byId := byId, sub := collectSubs vt #[], rootSize := root.size }
+
+def idList (c : Ctx) (l : List Nat) : String :=
+  if l.isEmpty then "-" else String.intercalate "," (l.map c.idOf)
 
 def pt (r c : String) : TSPoint := { row := natOf r, column := natOf c }
 
@@ -120,6 +123,32 @@ def Ctx.expected (c : Ctx) (k : Nat) (op : String) (args : List String) : Option
     -- the root frame is printed when MISSING or (alias ? "alias visible" : visible ∧ named)
     let printed := i.missing || (if i.alias != 0 then (c.lang.symMeta i.alias).visible else i.named)
     some (hexOfString (render c.lang t printed))
+  | "kind", _ =>
+    let i := (ft.node k).info
+    some s!"{c.lang.publicSymbol i.sym} {i.raw.data.symbol} {hexOfString (c.lang.symMeta i.sym).name} {hexOfString (c.lang.symMeta i.raw.data.symbol).name}"
+  | "fl", _ =>
+    let i := (ft.node k).info
+    let b := fun (x : Bool) (n : Nat) => if x then n else 0
+    some (toString (b i.named 1 + b i.extra 2 + b i.missing 4 + b (c.lang.publicSymbol i.sym == symError) 8 + b i.raw.data.hasChanges 16))
+  | "pst", _ => some s!"{(ft.node k).info.raw.data.parseState} 1"
+  | "rng", _ => some s!"{ft.sb k} {ft.eb k} {(ft.sp k).row} {(ft.sp k).column} {(ft.ep k).row} {(ft.ep k).column}"
+  | "chi", _ => some (idList c (ft.kidsOf k))
+  | "nchi", _ => some (idList c (ft.namedKids k))
+  | "cbfi", f :: _ => some (idList c ((ft.kidsOf k).filter fun j => ft.fieldOf j == natOf f))
+  | "cbni", f :: _ => some (idList c ((ft.kidsOf k).filter fun j => ft.fieldOf j == natOf f))
+  | "cbn", f :: _ => some (c.optId (ft.childByField k (natOf f)))
+  | "gdn", _ => some (c.fieldNameHex k)
+  | "gdc", _ => some (c.state 0 k)
+  | "wcl", _ => some (c.state k k)
+  | "wrs", _ => some (c.state k k)
+  | "wrt", _ =>
+    some (match (ft.kidsOf k).head? with
+      | some j => s!"{c.state k k} 1 {c.state k j} 1 {c.state k k}"
+      | none => s!"{c.state k k} 0 {c.state k k} 0 {c.state k k}")
+  | "wrd", _ =>
+    some (match (ft.kidsOf k).getLast? with
+      | some j => s!"1 {c.state k j} 1 {c.state k k}"
+      | none => s!"0 {c.state k k} 0 {c.state k k}")
   | "gd", _ => some (c.state 0 k)
   | "cfc", _ => some (c.moveAnswer 0 k 0 true)
   | "clc", _ => some (c.moveAnswer 0 k 1 true)
@@ -153,7 +182,7 @@ def Ctx.expected (c : Ctx) (k : Nat) (op : String) (args : List String) : Option
 /-- Number of answer tokens that follow the arguments of each op. -/
 def argCount (op : String) : Nat :=
   match op with
-  | "ch" | "nch" | "fn" | "fnn" | "cbf" | "fcb" | "fncb" | "cwd" | "cwd2" | "cfcb" => 1
+  | "ch" | "nch" | "fn" | "fnn" | "cbf" | "fcb" | "fncb" | "cwd" | "cwd2" | "cfcb" | "cbfi" | "cbni" | "cbn" => 1
   | "dbr" | "ndbr" => 3
   | "dpr" | "ndpr" => 5
   | "cfcp" => 2
@@ -182,7 +211,7 @@ def quirkSets : List (String × Quirks) :=
     ("int8+descidx+structidx", Quirks.current) ]
 
 def isCursorOp (op : String) : Bool :=
-  ["gd", "cfc", "clc", "cns", "cps", "cpa", "cfcb", "cfcp", "w0", "wfc", "wlc", "wns", "wps", "wpa", "wback"].contains op
+  ["gd", "gdn", "gdc", "cfc", "clc", "cns", "cps", "cpa", "cfcb", "cfcp", "w0", "wcl", "wrt", "wrs", "wrd", "wfc", "wlc", "wns", "wps", "wpa", "wback"].contains op
 
 def usesPrev (op : String) : Bool := op == "cps" || op == "wps" || op == "wback"
 
@@ -202,6 +231,23 @@ def portAnswer (lang : Lang) (q : Quirks) (cur : Cursor) (op : String) (args : L
     s!"{if ok then 1 else 0} {st c'}" ++ (if withPos then " " ++ c'.posString else "")
   match op, args with
   | "gd", _ => some (st cur)
+  | "gdc", _ => some (st cur)
+  | "gdn", _ =>
+    let f := currentFieldId lang cur
+    some (if f == 0 then "-" else hexOfString (lang.fieldNames.getD f ""))
+  -- `ts_tree_cursor_copy`, `_reset_to`, `_reset`: the stack and the root alias are carried over
+  | "wcl", _ => some (st (cur.rootedHere lang))
+  | "wrs", _ => some (st (cur.rootedHere lang))
+  | "wrt", _ =>
+    let w := cur.rootedHere lang
+    let (ok, w1) := applyMove lang q 0 w
+    let (okp, w2) := applyMove lang q 4 w1
+    some s!"{st w} {if ok then 1 else 0} {st w1} {if okp then 1 else 0} {st w2}"
+  | "wrd", _ =>
+    let w := cur.rootedHere lang
+    let (okd, deep) := applyMove lang q 1 w
+    let (okz, z) := applyMove lang q 4 deep
+    some s!"{if okd then 1 else 0} {st deep} {if okz then 1 else 0} {st z}"
   | "cfc", _ => some (mvAns cur 0 true)
   | "clc", _ => some (mvAns cur 1 true)
   | "cns", _ => some (mvAns cur 2 true)
@@ -258,7 +304,13 @@ def judgeLine (c : Ctx) (root : Tree) (rootId : Nat) (r : Res) (line : String) :
         if exp == answer then r
         else
           let label := match hit with
-            | some (name, _) => if name == "none" then op ++ ":port-vs-tree" else op ++ ":quirk-" ++ name
+            | some (name, _) =>
+              if name == "none" then
+                -- the port of the unchanged algorithm gives the API's answer: attribute to the known
+                -- dead-end descent only for "-1 although a child ends after the goal"
+                (if (op == "cfcb" || op == "cfcp") && answer.startsWith "-1 " && !exp.startsWith "-1 "
+                 then op ++ ":dead-end-descent" else op ++ ":port-vs-tree")
+              else op ++ ":quirk-" ++ name
             | none => op ++ ":unexplained"
           { r with fails := r.fails.add label fun _ => s!"{where_ ()}: api={answer} tree={exp}" }
       else
@@ -300,6 +352,7 @@ def judgeLine (c : Ctx) (root : Tree) (rootId : Nat) (r : Res) (line : String) :
         | "fnn", i :: _ => some (match fieldNameForChildPort c.lang (c.rootSize + 1) (refOf k) (natOf i) false with
             | some f => hexOfString (c.lang.fieldNames.getD f "") | none => "-")
         | "cbf", f :: _ => some (optRef (childByFieldIdPort c.lang (c.rootSize + 1) (refOf k) (natOf f)))
+        | "cbn", f :: _ => some (optRef (childByFieldIdPort c.lang (c.rootSize + 1) (refOf k) (natOf f)))
         | _, _ => none
       let r := match navPort with
         | some port =>
@@ -357,6 +410,17 @@ def judgeLine (c : Ctx) (root : Tree) (rootId : Nat) (r : Res) (line : String) :
           else op
         { r with fails := r.fails.add label fun _ => s!"{where_ ()}: api={answer} tree={exp}" }
     | none => { r with fails := r.fails.add "unparsed" fun _ => line }
+  | ["rwo", idx, id, sb, sr, sc, eb, er, ec] =>
+    let k := natOf idx
+    let off : Length := { bytes := 7, extent := { row := 2, column := 3 } }
+    let i := (c.ft.node k).info
+    let s0 := length_add off i.start
+    let e0 := length_add off i.stop
+    let exp := s!"{toHex i.id} {s0.bytes} {s0.extent.row} {s0.extent.column} {e0.bytes} {e0.extent.row} {e0.extent.column}"
+    let got := s!"{id} {sb} {sr} {sc} {eb} {er} {ec}"
+    let r := { r with asked := r.asked + 1 }
+    if k < c.ft.size && exp == got then r
+    else { r with fails := r.fails.add "rwo" fun _ => s!"root_node_with_offset walk node#{k}: api={got} tree={exp}" }
   | "v" :: idx :: rest =>
     let k := natOf idx
     let r := { r with asked := r.asked + 1 }
